@@ -71,6 +71,10 @@ FEATURES = {
     "index_last": ("cmp", "eq", ("idx", A(X, "vals"), -1), A(Y, "a")),
     "call": ("cmp", "eq", ("call", X, "m", (1,)), L(1)),
     "call_attr": ("cmp", "eq", ("call", X, "m", (1,)), A(Y, "b")),
+    # calls whose arguments are expressions over the same and over another variable
+    "call_var_arg": ("cmp", "eq", ("callv", X, "m", (A(Y, "b"),)), L(1)),
+    "call_own_arg": ("cmp", "ge", ("callv", X, "m", (A(X, "b"),)), L(2)),
+    "call_var_arg_cmp_var": ("cmp", "eq", ("callv", X, "m", (A(Y, "a"),)), A(Y, "b")),
     "hastype": ("hastype", X, "SubItem"),
     "pred": ("pred", "SameA", X, Y),
     "pred_lit": ("pred", "AIs", X, L(1)),
